@@ -358,7 +358,7 @@ def load_corpus():
     out = []
     for e in json.load(open(path)):
         out.append(Case(e["model"], [float.fromhex(x) for x in e["p_hex"]], [float.fromhex(x) for x in e["u_hex"]],
-                        modelled=False, tag="corpus"))
+                        modelled=bool(e.get("modelled", False)) and e["model"] in EXPRS, tag="corpus"))
     return out
 
 
@@ -678,6 +678,10 @@ def nan_signature(c, a):
     (rational arithmetic on the doubles) argument of the square root is within a
     few ulp of its bound, i.e. the sampled kinematic variable sits at its limit, AND
     an extreme uniform was consumed (or the cut itself is within 1e-8 of Tmax)."""
+    # The three defects behind these signatures are repaired (/repo 01d8a4d KN min(1-cos, 2), 9ddc3d9 EPlusGG
+    # clamp(cos, -1, 1), 14a7210 IoniFinalStateHelper min(cos, 1)): a NaN there is a plain VIOLATION again
+    # (corpus cases replay the former NaN inputs on every run), so no signature is ever returned.
+    return None
     from fractions import Fraction as F
     m, act = c.model, a["action"]
     used = c.u[:a["draws"]]
